@@ -20,7 +20,7 @@ DEFAULT_FEAT = dict(
     or_pre=False, forall_pre=False,          # D2 / D3 finding profiles
     cond_numeric=True,                       # numeric comparisons inside when/forall conditions
     child_first_types=False,                 # D10 finding profile
-    repeated_call_objects=True,
+    repeated_call_objects=True, long_names=False,
     max_types=4, max_preds=4, max_funcs=3, max_actions=3, max_params=3, max_objects=5,
 )
 
@@ -47,7 +47,10 @@ def gen_domain(t, feat=None, multi_agent=False):
     ntypes = 1 + t.draw(f["max_types"])
     # names are drawn from shuffled pools so that alphabetical / hash order is independent of structure (depth in the
     # type tree, declaration order, arity)
+    long_names = f.get("long_names", False)
     names = t.shuffle(["t0", "t1", "t-2", "t_3", "tt", "t10"])[:ntypes]
+    if long_names:
+        names = [f"quite-long-type-name-{n}" for n in names]
     types = {}
     if multi_agent:
         types["agent"] = "object"
@@ -76,7 +79,11 @@ def gen_domain(t, feat=None, multi_agent=False):
     anames = t.shuffle(["a0", "a1", "a-2", "a_3", "aa", "a10", "nop-wait", "noop", "no-op"])
     for ai in range(1 + t.draw(f["max_actions"])):
         npar = t.draw(f["max_params"] + 1)
-        params = [(f"?x{j}", t.pick(tnames)) for j in range(npar)]
+        if long_names:
+            npar = 4 + t.draw(6)  # long parameter lists (an exported :parameters line of several hundred characters)
+            params = [(f"?a-long-parameter-name-{j}", t.pick(tnames)) for j in range(npar)]
+        else:
+            params = [(f"?x{j}", t.pick(tnames)) for j in range(npar)]
         if multi_agent:
             k = t.draw(len(params) + 1) if f.get("agent_anywhere", True) else 0
             params = params[:k] + [("?ag", "agent")] + params[k:]
@@ -379,7 +386,8 @@ def render_problem(D, P, order=None):
         init = order.shuffle(init)
     s = f"(define (problem {P['name']}) (:domain {D['name']})\n(:objects " + " ".join(
         f"{o} - {ty}" for o, ty in P["objects"].items()) + ")\n(:init " + " ".join(init) + ")\n"
-    s += "(:goal (and " + " ".join("(" + " ".join(g) + ")" for g in P.get("goal", [])) + ")))\n"
+    s += "(:goal (and " + " ".join("(" + " ".join(g) + ")" for g in P.get("goal", [])) + " " + " ".join(
+        r_f(g) for g in P.get("goal_num", [])) + ")))\n"
     return s
 
 
